@@ -20,7 +20,8 @@ RULE = (
     "minor, higher minor, other major}; container- and group-level metador.query(S, v) from root, groups and datasets. "
     "Oracle: exact lookup returns an object equal to the stored one, ancestor lookup an instance of the ancestor class "
     "equal to Ancestor.parse(stored); query sets == brute force over the reference model using parent chains derived "
-    "from the class MRO (not from the TOC), both directions. Non-trivial = query whose expected set is non-empty, "
+    "from the class MRO (not from the TOC), both directions; membership is also asked with plugin references and "
+    "classes. Scenario shard: copy with a node of ANOTHER container as source (h5->h5, ih5->ih5, h5->ih5). Non-trivial = query whose expected set is non-empty, "
     "differs from 'all annotated nodes', and contains a node matched only through a descendant schema, or a version "
     "argument that excludes an otherwise matching node; distinct by (query, expected set, tree shape)"
 )
